@@ -214,6 +214,15 @@ func judgeTakeover(w *world) {
 				}
 			}
 		}
+		if toldAt >= 0 && toldAt+2000 < endMs && (old.downAt < 0 || old.downAt > toldAt+2000) && (old.disconnAt < 0 || old.disconnAt > toldAt+2000) {
+			// that exchange ended the displaced session: the broker closes its connection (the
+			// client is told, instead of talking to a socket nobody reads)
+			w.o.probe("displaced_sessions_ended_at_keepalive")
+			if !old.sawClose || old.closeAt > toldAt+1500 {
+				w.o.violate("C12", "displaced-connection-left-open", len(w.c.Steps), endMs, map[string]string{"same_node": fmt.Sprint(old.node == succ.node)},
+					"client %d was displaced by client %d and had its keep-alive exchange at %dms on a host that knew the successor; the broker has not closed its connection within 1.5 s (closed: %v at %dms)", old.idx, succ.idx, toldAt, old.sawClose, old.closeAt)
+			}
+		}
 		if toldAt >= 0 {
 			for _, ex := range old.exch {
 				if ex.firstAt > toldAt+1000 {
@@ -262,7 +271,11 @@ func genC13(r *Rand, tier, profile string) *Case {
 	k := int64(r.PickInt([]int{1, 2, 5}))
 	dnode := r.Intn(nodes)
 	t += 20
-	ts = append(ts, tstep{t, Step{K: "connect", C: 20, N: dnode, S: "dying", U: "u", T: "p", I: k, L: []string{willTopic, "will1"}, Q: r.Intn(3), F: r.Bool(0.3)}})
+	willPayload := "will1"
+	if r.Bool(0.12) {
+		willPayload = "" // a zero-length will message is a will (with retain: "clear my status when I die")
+	}
+	ts = append(ts, tstep{t, Step{K: "connect", C: 20, N: dnode, S: "dying", U: "u", T: "p", I: k, L: []string{willTopic, willPayload}, Q: r.Intn(3), F: r.Bool(0.3)}})
 	brief := nodes > 1 && r.Bool(0.15)
 	cause := r.Pick([]string{"disconnect", "cut", "close", "silence", "protoerr", "stopnode", "cut", "silence"})
 	if brief {
@@ -351,7 +364,8 @@ func judgeWills(w *world) {
 		}
 		got := 0
 		for _, ex := range cl.exch {
-			if ex.tag == "will1" {
+			// nothing but the will is ever published in this profile
+			if ex.tag == "will1" || (dying.opts.WillPayload == "" && ex.tag == "" && ex.topic == willTopic) {
 				got++
 				if ex.topic != willTopic {
 					w.o.violate("C13", "will-topic-altered", len(w.c.Steps), endMs, map[string]string{"cause": f.cause}, "watcher %d received the will on topic %q, the will topic is %q", id, ex.topic, willTopic)
@@ -689,7 +703,12 @@ func genC17(r *Rand, tier, profile string) *Case {
 			cr := tenantCreds[tn]
 			st := Step{K: "connect", C: cid, N: r.Intn(nodes), S: name, U: cr[0], T: cr[1], I: 3000}
 			if r.Bool(0.3) {
-				st.L = []string{"a/will", fmt.Sprintf("%s-will%d", tn, cid)}
+				wt := "a/will"
+				if r.Bool(0.5) {
+					// a will topic that starts with (another) tenant's name
+					wt = r.Pick([]string{"ta", "tb", "tc", "_default"}) + r.Pick([]string{"/will", "/a/will", "/a/x"})
+				}
+				st.L = []string{wt, fmt.Sprintf("%s-will%d", tn, cid)}
 			}
 			ts = append(ts, tstep{t, st})
 			var fs []string
